@@ -1,3 +1,527 @@
-def r02_2(ctx): pass
-def r02_3(ctx): pass
-def r03_1(ctx): pass
+"""C02 C03 C05: the ordering skeleton of the coordinator (no schedule is enumerated)."""
+import core as C
+import modes as M
+from common import *  # noqa
+from engine import prop, rule
+
+POOL_EXEC = "threadpool::ThreadPool::execute"
+SEND = "std::sync::mpsc::Sender::<T>::send"
+TRY_RECV = "std::sync::mpsc::Receiver::<T>::try_recv"
+PPMODES = frozenset(["FirstPassExecute", "Execute", "CollectDeps"])
+
+prop("C02", "Includes always see the complete, fresh output of their dependencies",
+     decided=["R02.1 a file is re-run (is_first_pass = const false) only for an item released by DepManager::notify_finish or on the false edge "
+              "of add_dependency for that same file; is_first_pass is always a literal",
+              "R02.2 while collecting dependencies a directive is executed only outside CollectDeps; a dependency with a .txtpp source never "
+              "leads to execution in the first pass and is recorded via share_base(get_txtpp_file(..))",
+              "R02.3 command execution, include reads, temp writes and tag creation happen only on the Some edge of the collect-deps gate",
+              "R02.4 writes in the line loop happen only under PpMode::is_execute()",
+              "R02.5 PpResult::Ok is built only after IOCtx::done() succeeded; each worker sends exactly the value returned by preprocess/scan_dir",
+              "R02.6 worker closures capture only {Sender<TaskResult>, Arc<Shell>, AbsPath, Mode, bool}; Shell has no interior mutability"],
+     not_decided=["equality with the sequential build over all DAGs x completion orders", "correctness of DepManager's counting (value-level)",
+                  "stale-file freshness as a runtime fact"])
+
+prop("C03", "Every run terminates and completes each required file exactly once",
+     decided=["R03.1 every task closure sends exactly one result on every normal path (one send, post-dominating, outside any cycle)",
+              "R03.2 every spawn in execute_file is preceded by Progress::add_total(1) and no Ok return lies between them without the spawn",
+              "R03.3 every received result is counted by add_done(1) before it is dispatched",
+              "R03.4 the coordinator loop is left towards success only on the is_done() edge taken when the channel is Empty",
+              "R03.5 a first-pass spawn is guarded by the true edge of HashSet::insert (dedup)",
+              "R03.6 AbsPath is built only by create_base/share_base (canonicalised) or the test-only new; derived Eq/Hash read field p only"],
+     not_decided=["termination (liveness over all schedules)", "'exactly once' as a count over runtime histories",
+                  "pairing of add_total(subdirs.len()) with the directory loop (value-level)", "DepManager release counts"])
+
+prop("C05", "Dependency cycles are reported, never hang, and spare the acyclic part",
+     decided=["R05.1 the coordinator returns Ok(()) only on the is_empty() edge of DepManager::take_remaining(); the other edge returns an error",
+              "R05.2 a waiting file can only be released through notify_finish (= R02.1)",
+              "R05.3 the loop exit condition counts only spawned tasks (= R03.2/R03.4)"],
+     not_decided=["acyclic => no cycle error, bystanders complete: properties of DepManager's runtime graph under all arrival orders",
+                  "hang-freedom as liveness"])
+
+
+def spawner_bodies(ctx):
+    """bodies that hand a closure to ThreadPool::execute, with the closure bodies"""
+    out = []
+    for b in ctx.lib.bodies.values():
+        for bb, t in calls_to(b, POOL_EXEC):
+            cl = t["arg_tys"][1].get("closure") if len(t["arg_tys"]) > 1 else None
+            out.append((b, bb, t, ctx.lib.bodies.get(cl) if cl else None))
+    return out
+
+
+def file_spawner(ctx):
+    """the function whose task closure calls preprocess"""
+    for b, bb, t, cl in spawner_bodies(ctx):
+        if cl and calls_to(cl, ROLE["preprocess"]):
+            return b, bb, cl
+    ctx.anchor_missing("a ThreadPool::execute task closure calling preprocess")
+    return None, None, None
+
+
+# ------------------------------------------------------------------ C02
+
+@rule("C02", "R02.1", floor=5)
+def r02_1(ctx):
+    lib = ctx.lib
+    ef, spawn_bb, cl = file_spawner(ctx)
+    if not ef:
+        return
+    pidx = ef.param_index_by_name("is_first_pass")
+    if pidx is None:
+        ctx.anchor_missing("is_first_pass parameter of %s" % ef.name)
+        return
+    for (b, bb, t) in C.all_call_sites(lib, lambda ns, t: ef.name in ns):
+        v = C.op_const(t["args"][pidx - 1])
+        site = ctx.site(b, bb)
+        if v == "true":
+            ctx.ok("first-pass spawn|%s" % b.name, site=site)
+            continue
+        if v != "false":
+            ctx.violation([b.name, "non-const"], "is_first_pass is not a literal at this call: the pass kind cannot be established", site=site)
+            continue
+        file_lv = C.trace(b, t["args"][1], transparent=lambda tt: C.is_transparent(tt, ABSPATH_VIEWS))
+        # (i) item of the set returned by notify_finish
+        via_notify = False
+        for l in file_lv:
+            if l.kind == "call" and C.callee_name(l.data).endswith("as std::iter::Iterator>::next"):
+                src = C.trace(b, l.data["args"][0], transparent=lambda tt: C.is_transparent(tt) or C.callee_name(tt).endswith("::into_iter"))
+                if has_call(src, ROLE["notify_finish"]):
+                    via_notify = True
+        if via_notify:
+            ctx.ok("second pass for an item released by notify_finish|%s" % b.name, site=site)
+            continue
+        # (ii) false edge of add_dependency on the same depender
+        ad_false = bool_call_edges(b, lib, ROLE["add_dependency"], False)
+        same_dep = False
+        for abb, at in calls_to(b, ROLE["add_dependency"]):
+            dep_lv = C.trace(b, at["args"][1])
+            if {(l.kind, C.pl_str(l.data) if l.kind == "field" else l.bb) for l in dep_lv} & \
+                    {(l.kind, C.pl_str(l.data) if l.kind == "field" else l.bb) for l in file_lv}:
+                same_dep = True
+        if ad_false and C.guarded(b, bb, ad_false) and same_dep:
+            ctx.ok("second pass on the false edge of add_dependency for the same file|%s" % b.name, site=site)
+        else:
+            ctx.violation([b.name, "second-pass-site"], "a file is re-run (is_first_pass=false) from a site that is neither the notify_finish release loop "
+                          "nor the all-dependencies-already-finished edge of add_dependency: it could run before its dependencies are complete",
+                          site=site, witness=C.witness(b, bb, ad_false))
+
+
+def _ret_shape(b, bb):
+    """'Ok(Some)' / 'Ok(None)' / 'Ok' for the Ok aggregate stored to _0 in block bb"""
+    for st in b.blocks[bb]["stmts"]:
+        if st["k"] == "assign" and st["lhs"]["l"] == 0 and st["rv"]["k"] == "aggregate" and st["rv"]["agg"].get("variant") == "Ok":
+            op = st["rv"]["ops"][0]
+            p = C.op_place(op)
+            if p is None:
+                return "Ok"
+            for rec in b.defs().get(p["l"], []):
+                if rec[0] == "assign" and rec[3]["rv"]["k"] == "aggregate" and rec[3]["rv"]["agg"].get("adt") == "std::option::Option":
+                    return "Ok(%s)" % rec[3]["rv"]["agg"]["variant"]
+            return "Ok"
+    return None
+
+
+@rule("C02", "R02.2", floor=3)
+def r02_2(ctx):
+    lib = ctx.lib
+    b = body(ctx, "execute_in_collect_deps_mode")
+    if not b:
+        return
+    mo = M.Modes(lib, mode_adts=(ADT["PpMode"],), all_modes=PPMODES)
+    somes = [bb for bb in ok_sites(b) if _ret_shape(b, bb) == "Ok(Some)"]
+    if not somes:
+        ctx.anchor_missing("Ok(Some(directive)) return in the collect-deps gate")
+    for bb in somes:
+        m = mo.local_modes(b, bb)
+        if "CollectDeps" in m:
+            ctx.violation(["execute-while-collecting"], "the collect-deps gate lets a directive execute while already collecting dependencies "
+                          "(a command after a dependency line would run before the dependency is built)", site=ctx.site(b, bb))
+        else:
+            ctx.ok("go-execute only in %s" % sorted(m), site=ctx.site(b, bb))
+    # the Some edge of get_txtpp_file() never leads to execution
+    some_e = enum_edges(b, lib, "std::option::Option", lambda vs: vs == {"Some"}, src_pred=lambda c: has_call(c.src, ROLE["get_txtpp_file"]))
+    if not some_e:
+        ctx.anchor_missing("`if let Some(x) = get_txtpp_file()` in the collect-deps gate")
+        return
+    reg = C.region(b, some_e)
+    bad = [bb for bb in somes if bb in reg]
+    if bad:
+        ctx.violation(["dep-then-execute"], "a dependency with a .txtpp source is found and the directive is still executed in the same pass",
+                      site=ctx.site(b, bad[0]))
+    else:
+        ctx.ok("a .txtpp-backed dependency never leads to execution in the first pass", site=ctx.site(b, min(reg)))
+    # the recorded dependency is share_base(get_txtpp_file(..))
+    recorded = []
+    for bb2, t in b.calls():
+        if bb2 in reg and C.callee_name(t) == "std::vec::Vec::<T, A>::push":
+            recorded.append((bb2, t["args"][1]))
+    for bb2, st in aggregates(b, ADT["PpMode"], "CollectDeps"):
+        if bb2 in reg:
+            recorded.append((bb2, st["rv"]["ops"][0]))
+    if len(recorded) < 2:
+        ctx.violation(["record-dep"], "the found dependency is not recorded on both collecting paths (push / start collecting)", site=ctx.site(b, min(reg)))
+    for bb2, op in recorded:
+        lv = C.trace(b, op, through_decorators=True, transparent=lambda t: C.is_transparent(t) or C.callee_name(t) in (
+            "std::vec::from_elem", "std::boxed::box_assume_init_into_vec_unsafe", "std::slice::<impl [T]>::into_vec", "std::boxed::Box::<T>::new"))
+        ok = False
+        for l in lv:
+            if leaf_is_call(l, ROLE["share_base"]) and has_call(C.trace(b, l.data["args"][1]), ROLE["get_txtpp_file"]):
+                ok = True
+            # vec![p_abs] goes through a boxed array write: accept an array/box leaf whose element is p_abs
+        if not ok:
+            # look through `vec![p_abs]` (Box<[T;1]> initialisation)
+            for bb3, si, st in b.stmts():
+                if st["k"] == "assign" and st["rv"]["k"] == "aggregate" and st["rv"]["agg"]["k"] == "array":
+                    for o in st["rv"]["ops"]:
+                        if any(leaf_is_call(l, ROLE["share_base"]) for l in C.trace(b, o, through_decorators=True)):
+                            ok = True
+        if ok:
+            ctx.ok("recorded dependency = share_base(get_txtpp_file(..))", site=ctx.site(b, bb2))
+        else:
+            ctx.violation(["record-dep-origin"], "the recorded dependency does not derive from share_base(get_txtpp_file(..))", site=ctx.site(b, bb2))
+
+
+@rule("C02", "R02.3", floor=4)
+def r02_3(ctx):
+    lib = ctx.lib
+    b = body(ctx, "execute_directive")
+    if not b:
+        return
+    gate = enum_edges(b, lib, "std::option::Option", lambda vs: vs == {"Some"},
+                      src_pred=lambda c: has_call(C.trace(b, c.place, through_decorators=True), ROLE["execute_in_collect_deps_mode"]))
+    if not gate:
+        ctx.anchor_missing("match on the result of the collect-deps gate in execute_directive")
+        return
+    effects = [ROLE["shell_run"], "std::fs::read_to_string", "std::fs::read", ROLE["execute_directive_temp"], ROLE["tag_create"],
+               "std::fs::File::open"]
+    clean_e = enum_edges(b, lib, ADT["Mode"], lambda vs: vs == {"Clean"})
+    n = 0
+    for bb, t in b.calls():
+        nm = C.callee_name(t)
+        if nm not in effects:
+            continue
+        n += 1
+        if C.guarded(b, bb, gate | clean_e):
+            ctx.ok("%s behind the collect-deps gate" % nm.rsplit("::", 1)[-1], site=ctx.site(b, bb))
+        else:
+            ctx.violation([nm], "%s is reachable without passing the collect-deps gate (it would execute in a dependency-collecting pass)" % nm,
+                          site=ctx.site(b, bb), witness=C.witness(b, bb, gate))
+    if n < 4:
+        ctx.anchor_missing("the four directive effects (run, include read, temp, tag) in execute_directive")
+
+
+@rule("C02", "R02.4", floor=2)
+def r02_4(ctx):
+    lib = ctx.lib
+    b = body(ctx, "pp_run_internal")
+    if not b:
+        return
+    isx = bool_call_edges(b, lib, "txtpp::core::execute::pp::PpMode::is_execute", True)
+    for bb, t in calls_to(b, ROLE["write_output"]):
+        if not b.in_cycle(bb):
+            continue
+        if isx and C.guarded(b, bb, isx):
+            ctx.ok("in-loop write under is_execute()", site=ctx.site(b, bb))
+        else:
+            ctx.violation(["write-while-collecting"], "output is written in the line loop without the is_execute() guard", site=ctx.site(b, bb))
+
+
+@rule("C02", "R02.5", floor=3)
+def r02_5(ctx):
+    lib = ctx.lib
+    b = body(ctx, "pp_run_internal")
+    if b:
+        done_ok = try_ok_edges(b, lib, ROLE["done"])
+        ags = aggregates(b, ADT["PpResult"], "Ok")
+        if not ags:
+            ctx.anchor_missing("PpResult::Ok aggregate")
+        for bb, st in ags:
+            if done_ok and C.guarded(b, bb, done_ok):
+                ctx.ok("PpResult::Ok only after done() succeeded", site=ctx.site(b, bb))
+            else:
+                ctx.violation(["ok-before-done"], "PpResult::Ok is built on a path that does not pass the success edge of IOCtx::done() "
+                              "(the file would be reported complete before it is flushed)", site=ctx.site(b, bb), witness=C.witness(b, bb, done_ok))
+    for sb, sbb, t, cl in spawner_bodies(ctx):
+        if cl is None:
+            ctx.violation([sb.name, "opaque-task"], "ThreadPool::execute is given something other than a closure literal", site=ctx.site(sb, sbb))
+            continue
+        sends = calls_to(cl, SEND)
+        for bb, st in sends:
+            lv = C.trace(cl, st["args"][1], through_fields=True)
+            pay = set()
+            for l in lv:
+                if l.kind == "aggregate" and l.data["agg"].get("adt") == ADT["TaskResult"]:
+                    for o in l.data["ops"]:
+                        for x in C.trace(cl, o):
+                            pay.add(x.callee() if x.kind == "call" else x.kind)
+            if pay and pay <= {ROLE["preprocess"], ROLE["scan_dir"]}:
+                ctx.ok("worker sends the value returned by %s" % sorted(p.rsplit("::", 1)[-1] for p in pay), site=ctx.site(cl, bb))
+            else:
+                ctx.violation([cl.name, "payload"], "a worker sends a result that is not the return value of preprocess/scan_dir: %s" % sorted(map(str, pay)),
+                              site=ctx.site(cl, bb))
+
+
+@rule("C02", "R02.6", floor=2)
+def r02_6(ctx):
+    allowed = ("std::sync::mpsc::Sender<txtpp::core::execute::TaskResult>", "std::sync::Arc<txtpp::fs::shell::Shell>",
+               "txtpp::fs::path::abs_path::AbsPath", "txtpp::core::execute::config::Mode", "bool")
+    for sb, sbb, t, cl in spawner_bodies(ctx):
+        if cl is None:
+            continue
+        bad = [u["ty"] for u in cl.upvars if u["ty"] not in allowed]
+        if bad:
+            ctx.violation([cl.name, "upvars", ",".join(bad)], "a worker task captures %s: coordinator state or shared mutable data must not "
+                          "reach worker threads" % bad, site=ctx.site(sb, sbb))
+        else:
+            ctx.ok("upvars of %s: %s" % (cl.name.rsplit("::", 2)[-2], [u["ty"].rsplit("::", 1)[-1] for u in cl.upvars]), site=ctx.site(sb, sbb))
+    sh = ctx.lib.adts.get(ADT["Shell"])
+    if sh:
+        tys = [f["ty"] for f in sh["variants"][0]["fields"]]
+        if any(x in ty for ty in tys for x in ("Cell<", "Mutex<", "RwLock<", "Atomic", "UnsafeCell")):
+            ctx.violation(["shell-interior-mut"], "Shell (shared by Arc across workers) has an interior-mutable field: %s" % tys)
+        else:
+            ctx.ok("Shell fields are plain data: %s" % tys)
+
+
+# ------------------------------------------------------------------ C03
+
+@rule("C03", "R03.1", floor=2)
+def r03_1(ctx):
+    for sb, sbb, t, cl in spawner_bodies(ctx):
+        if cl is None:
+            ctx.violation([sb.name, "opaque-task"], "ThreadPool::execute is given something other than a closure literal", site=ctx.site(sb, sbb))
+            continue
+        sends = calls_to(cl, SEND)
+        rets = [bb for bb in C.live(cl) if cl.term(bb)["k"] == "return"]
+        if len(sends) != 1:
+            ctx.violation([cl.name, "send-count"], "a task closure has %d Sender::send sites on its normal paths (exactly one expected: every task "
+                          "must report once, or the coordinator's done/total accounting never balances)" % len(sends), site=ctx.site(cl, 0))
+            continue
+        bb, st = sends[0]
+        cut = {eid for eid, s, lab in cl.edges(bb)}
+        if any(not C.guarded(cl, r, cut) for r in rets):
+            ctx.violation([cl.name, "send-skipped"], "a normal path through the task closure returns without sending its result",
+                          site=ctx.site(cl, bb), witness=C.witness(cl, rets[0], cut))
+        elif cl.in_cycle(bb):
+            ctx.violation([cl.name, "send-in-loop"], "the task closure may send more than one result (send inside a loop)", site=ctx.site(cl, bb))
+        else:
+            ctx.ok("exactly one send on every normal path|%s" % cl.name, site=ctx.site(cl, bb))
+
+
+@rule("C03", "R03.2", floor=2)
+def r03_2(ctx):
+    lib = ctx.lib
+    for sb, sbb, t, cl in spawner_bodies(ctx):
+        if cl is None or not calls_to(cl, ROLE["preprocess"]):
+            continue
+        adds = [(bb, at) for bb, at in calls_to(sb, ROLE["progress_add_total"]) if C.op_const(at["args"][1]) == "1_usize"]
+        if not adds:
+            ctx.violation([sb.name, "no-add-total"], "a preprocessing task is spawned without Progress::add_total(1)", site=ctx.site(sb, sbb))
+            continue
+        cut = set()
+        for bb, at in adds:
+            cut |= {eid for eid, s, lab in sb.edges(bb)}
+        if C.guarded(sb, sbb, cut):
+            ctx.ok("spawn preceded by add_total(1)", site=ctx.site(sb, sbb))
+        else:
+            ctx.violation([sb.name, "spawn-uncounted"], "a task can be spawned on a path that does not count it in the total "
+                          "(the loop could exit before it reports)", site=ctx.site(sb, sbb), witness=C.witness(sb, sbb, cut))
+        # after counting, every Ok return passes the spawn
+        spawn_cut = {eid for eid, s, lab in sb.edges(sbb)}
+        after = set()
+        for bb, at in adds:
+            after |= sb.reachable(bb)
+        bad = [o for o in ok_sites(sb) if o in after and o in sb.reachable(adds[0][0], cut=spawn_cut)]
+        if bad:
+            ctx.violation([sb.name, "counted-not-spawned"], "after add_total(1) the function can return Ok without spawning the task "
+                          "(done never reaches total: the run would hang)", site=ctx.site(sb, bad[0]))
+        else:
+            ctx.ok("no Ok return between add_total(1) and the spawn", site=ctx.site(sb, sbb))
+    # directory tasks: counted by add_total(subdirs.len()) at the call sites (value-level pairing: not decided)
+
+
+@rule("C03", "R03.3", floor=2)
+def r03_3(ctx):
+    lib = ctx.lib
+    b = body(ctx, "txtpp_run_internal")
+    if not b:
+        return
+    recv_ok = enum_edges(b, lib, "std::result::Result", lambda vs: vs == {"Ok"}, src_pred=lambda c: has_call(c.src, TRY_RECV))
+    dones = [(bb, t) for bb, t in calls_to(b, ROLE["progress_add_done"]) if C.op_const(t["args"][1]) == "1_usize"]
+    if not recv_ok or not dones:
+        ctx.anchor_missing("try_recv Ok edge / add_done(1) in the coordinator loop")
+        return
+    for bb, t in dones:
+        if C.guarded(b, bb, recv_ok):
+            ctx.ok("add_done(1) only for a received result", site=ctx.site(b, bb))
+        else:
+            ctx.violation(["done-without-result"], "add_done(1) is reachable without a received result", site=ctx.site(b, bb))
+    cut = set()
+    for bb, t in dones:
+        cut |= {eid for eid, s, lab in b.edges(bb)}
+    disp = [bb for bb in C.switches(b) if C.switch_cond(b, bb).kind == "enum" and C.switch_cond(b, bb).adt == ADT["TaskResult"]]
+    if not disp:
+        ctx.anchor_missing("dispatch on TaskResult in the coordinator loop")
+    for bb in disp:
+        if C.guarded(b, bb, cut):
+            ctx.ok("every received result is counted before dispatch", site=ctx.site(b, bb))
+        else:
+            ctx.violation(["dispatch-uncounted"], "a received result can be dispatched without being counted as done", site=ctx.site(b, bb))
+
+
+@rule("C03", "R03.4", floor=2)
+def r03_4(ctx):
+    lib = ctx.lib
+    b = body(ctx, "txtpp_run_internal")
+    if not b:
+        return
+    isd = bool_call_edges(b, lib, ROLE["progress_is_done"], True)
+    empty_e = enum_edges(b, lib, "std::sync::mpsc::TryRecvError", lambda vs: vs == {"Empty"}) | \
+        enum_edges(b, lib, "std::sync::mpmc::TryRecvError", lambda vs: vs == {"Empty"})
+    tr = calls_to(b, ROLE["take_remaining"])
+    if not tr or not isd:
+        ctx.anchor_missing("take_remaining / is_done in the coordinator")
+        return
+    for bb, t in tr:
+        if C.guarded(b, bb, isd):
+            ctx.ok("the loop is left towards success only on the is_done() edge", site=ctx.site(b, bb))
+        else:
+            ctx.violation(["exit-not-done"], "the coordinator loop can be left towards the success path while tasks are still outstanding",
+                          site=ctx.site(b, bb), witness=C.witness(b, bb, isd))
+    for bb, t in calls_to(b, ROLE["progress_is_done"]):
+        if empty_e and C.guarded(b, bb, empty_e):
+            ctx.ok("is_done() is consulted only when the channel is Empty", site=ctx.site(b, bb))
+        else:
+            ctx.violation(["done-check-not-empty"], "is_done() is consulted while results may still be queued", site=ctx.site(b, bb))
+
+
+@rule("C03", "R03.5", floor=1)
+def r03_5(ctx):
+    lib = ctx.lib
+    ef, spawn_bb, cl = file_spawner(ctx)
+    if not ef:
+        return
+    pidx = ef.param_index_by_name("is_first_pass")
+    ins_true = bool_call_edges(ef, lib, "std::collections::HashSet::<T, S, A>::insert", True,
+                               arg_pred=lambda t: has_field(C.trace(ef, t["args"][0]), "files"))
+    not_first = C.guard_edges(ef, lib, lambda c, v, leaf: c.kind == "bool" and leaf is not None and leaf.kind == "param"
+                              and leaf.data == pidx and v is False)
+    if ins_true and not_first and C.guarded(ef, spawn_bb, ins_true | not_first):
+        ctx.ok("first-pass spawn guarded by files.insert(..) == true", site=ctx.site(ef, spawn_bb))
+    else:
+        ctx.violation(["no-dedup"], "a first-pass task can be spawned for a file that is already in the build set (the file would be processed "
+                      "twice: commands run twice)", site=ctx.site(ef, spawn_bb), witness=C.witness(ef, spawn_bb, ins_true | not_first))
+    # the inserted key is the file being spawned
+    for bb, t in calls_to(ef, "std::collections::HashSet::<T, S, A>::insert"):
+        lv = C.trace(ef, t["args"][1], transparent=lambda tt: C.is_transparent(tt, ABSPATH_VIEWS))
+        if has_param(lv, ef, "file"):
+            ctx.ok("dedup key is the file parameter", site=ctx.site(ef, bb))
+        else:
+            ctx.violation(["dedup-key"], "the dedup set is keyed by something other than the file being scheduled", site=ctx.site(ef, bb))
+
+
+@rule("C03", "R03.6", floor=4)
+def r03_6(ctx):
+    lib = ctx.lib
+    allowed = {ROLE["create_base"], ROLE["share_base"], "txtpp::fs::path::abs_path::AbsPath::new",
+               "<txtpp::fs::path::abs_path::AbsPath as std::clone::Clone>::clone"}
+    for b in lib.bodies.values():
+        for bb, st in aggregates(b, ADT["AbsPath"]):
+            if b.name not in allowed:
+                ctx.violation([b.name, "abspath-literal"], "AbsPath is constructed outside create_base/share_base/new: the path may not be canonical "
+                              "(the same file could get two identities)", site=ctx.site(b, bb))
+                continue
+            if b.name in (ROLE["create_base"], ROLE["share_base"]):
+                flds = st["rv"]["agg"]["fields"]
+                lv = C.trace(b, st["rv"]["ops"][flds.index("p")], through_decorators=True)
+                if lv and all(leaf_is_call(l, ROLE["make_abs"]) for l in lv):
+                    ctx.ok("AbsPath.p <- make_abs|%s" % b.name.rsplit("::", 1)[-1], site=ctx.site(b, bb))
+                else:
+                    ctx.violation([b.name, "p-origin"], "AbsPath.p does not come from make_abs (canonicalisation skipped on some path)", site=ctx.site(b, bb))
+    ma = body(ctx, "make_abs")
+    if ma:
+        good = False
+        for bb, t in ma.calls():
+            if t["dest"]["l"] == 0:
+                lv = C.trace(ma, t["args"][0], through_decorators=True)
+                if has_call(lv, "std::path::Path::canonicalize"):
+                    good = True
+        oks = ok_sites(ma)
+        if good and not oks:
+            ctx.ok("make_abs returns canonicalize()'s result", site=ctx.site(ma, 0))
+        else:
+            ctx.violation(["make_abs"], "make_abs can return a path that is not the result of Path::canonicalize", site=ctx.site(ma, oks[0] if oks else 0))
+    # AbsPath::new (unit tests only) is not mentioned by non-test code
+    ments = C.all_mentions(lib, lambda ns: "txtpp::fs::path::abs_path::AbsPath::new" in ns)
+    if ments:
+        b, kind, bb, names, obj = ments[0]
+        ctx.violation(["abspath-new-used"], "AbsPath::new (no canonicalisation; for unit tests) is used by non-test code", site=ctx.site(b, bb))
+    else:
+        ctx.ok("AbsPath::new is not mentioned in non-test code")
+    # derived Eq/Hash read the absolute path only
+    for suffix in ("<txtpp::fs::path::abs_path::AbsPath as std::hash::Hash>::hash", "<txtpp::fs::path::abs_path::AbsPath as std::cmp::PartialEq>::eq"):
+        b = lib.bodies.get(suffix)
+        if not b:
+            ctx.anchor_missing(suffix)
+            continue
+        from rules_io import forward_uses
+        read = set()
+        for bb, si, st in b.stmts():
+            rv = st.get("rv", {})
+            pls = []
+            if "pl" in rv:
+                pls.append(rv["pl"])
+            for key in ("op", "a", "b"):
+                p = C.op_place(rv.get(key)) if isinstance(rv.get(key), dict) else None
+                if p:
+                    pls.append(p)
+            for pl in pls:
+                for (o, v, n) in C.pl_fields(pl):
+                    if o == ADT["AbsPath"] and forward_uses(b, st["lhs"]["l"]):
+                        read.add(n)     # the field (reference) is handed to some callee
+        if read == {"p"}:
+            ctx.ok("%s reads field p only" % suffix.rsplit("::", 1)[-1], site=ctx.site(b, 0))
+        else:
+            ctx.violation([suffix, "fields"], "AbsPath identity (%s) depends on fields %s, not only on the canonical path" % (suffix, sorted(read)), site=ctx.site(b, 0))
+
+
+# ------------------------------------------------------------------ C05
+
+@rule("C05", "R05.1", floor=2)
+def r05_1(ctx):
+    lib = ctx.lib
+    b = body(ctx, "txtpp_run_internal")
+    if not b:
+        return
+    emp_true = bool_call_edges(b, lib, ("std::collections::HashMap::<K, V, S, A>::is_empty", "std::collections::HashSet::<T, S, A>::is_empty",
+                                        "std::vec::Vec::<T, A>::is_empty"), True,
+                               arg_pred=lambda t: has_call(C.trace(b, t["args"][0]), ROLE["take_remaining"]))
+    emp_false = bool_call_edges(b, lib, ("std::collections::HashMap::<K, V, S, A>::is_empty", "std::collections::HashSet::<T, S, A>::is_empty",
+                                         "std::vec::Vec::<T, A>::is_empty"), False,
+                                arg_pred=lambda t: has_call(C.trace(b, t["args"][0]), ROLE["take_remaining"]))
+    oks = ok_sites(b)
+    if not oks:
+        ctx.anchor_missing("Ok return of the coordinator")
+    for bb in oks:
+        if emp_true and C.guarded(b, bb, emp_true):
+            ctx.ok("Ok(()) only when no dependency edge is left over", site=ctx.site(b, bb))
+        else:
+            ctx.violation(["ok-with-leftovers"], "the coordinator can report success without checking that the dependency graph is empty "
+                          "(files in a cycle are silently skipped)", site=ctx.site(b, bb), witness=C.witness(b, bb, emp_true))
+    if emp_false:
+        reg = C.region(b, emp_false)
+        if (reg & set(oks)) or not (reg & set(err_sites(b))):
+            ctx.violation(["leftovers-not-error"], "left-over dependency edges do not lead to an error return", site=ctx.site(b, min(reg) if reg else 0))
+        else:
+            ctx.ok("left-over edges lead to an Err return", site=ctx.site(b, min(reg & set(err_sites(b)))))
+
+
+@rule("C05", "R05.2", floor=2)
+def r05_2(ctx):
+    r02_1(ctx)
+
+
+@rule("C05", "R05.3", floor=2)
+def r05_3(ctx):
+    r03_2(ctx)
+    r03_4(ctx)
